@@ -369,7 +369,7 @@ func (e *env) readAll(when string) {
 }
 
 // withReaders runs f while reader goroutines keep reading all model objects
-// (first two passes back to back – real parallelism with f –, then every 250 ms
+// (first two passes back to back – real parallelism with f –, then every 500 ms
 // of fake time, which includes the scheduler's tick instants).
 func (e *env) withReaders(f func()) {
 	addrs := e.sortedLive()
@@ -412,7 +412,7 @@ func (e *env) withReaders(f func()) {
 				select {
 				case <-stop:
 					return
-				case <-time.After(250 * time.Millisecond):
+				case <-time.After(500 * time.Millisecond):
 				}
 			}
 		}()
@@ -616,18 +616,27 @@ func (e *env) run(s step) {
 func TestC16(t *testing.T) {
 	rec := ev.New("C16", "shard-writecache")
 	defer rec.Flush()
-	bubble.Check(t, func(t *rapid.T) {
-		defer func() {
-			if r := recover(); r != nil {
-				if re, ok := r.(runtime.Error); ok {
-					// a harness bug, not a verdict: show where
-					t.Logf("runtime error: %v\n%s", re, debug.Stack())
-				}
-				panic(r)
-			}
-		}()
+	// Draws happen outside the synctest bubble (see c17): only the execution
+	// runs inside bubble.Run.
+	tt := t
+	rapid.Check(t, func(t *rapid.T) {
 		c := genCfg(t)
 		steps := genSteps(t)
+		bubble.Run(tt, func() { runCase(t, rec, c, steps) })
+	})
+}
+
+func runCase(t *rapid.T, rec *ev.Recorder, c cfg, steps []step) {
+	defer func() {
+		if r := recover(); r != nil {
+			if re, ok := r.(runtime.Error); ok {
+				// a harness bug or a panic of the code under test, not a verdict of the oracle: show where
+				t.Logf("runtime error: %v\n%s", re, debug.Stack())
+			}
+			panic(r)
+		}
+	}()
+	{
 		dir, err := os.MkdirTemp("", "c16")
 		if err != nil {
 			ev.Inconclusive("C16: mkdtemp: %v", err)
@@ -722,5 +731,5 @@ func TestC16(t *testing.T) {
 			e.fatalf("final Close: %v", err)
 		}
 		closed = true
-	})
+	}
 }
